@@ -2876,7 +2876,10 @@ class LinearOperator(object):
                 if _is_tensor_index_moved_to_start(orig_indices):
                     res = res.view(*tensor_index_shape, *res.shape[1:])
                 else:
-                    res = res.view(*res.shape[:-1], *tensor_index_shape)
+                    # the flattened tensor-index dimension sits after the slices that precede the first tensor index
+                    first_tensor = next(i for i, idx in enumerate(orig_indices) if torch.is_tensor(idx))
+                    pos = sum(isinstance(idx, slice) for idx in orig_indices[:first_tensor])
+                    res = res.view(*res.shape[:pos], *tensor_index_shape, *res.shape[pos + 1 :])
         else:
             res = self._getitem(row_index, col_index, *batch_indices)
 
